@@ -36,7 +36,9 @@ func MutationFixture() (*fedlab.Config, *fedlab.Universe) {
 			{Name: "purge", Type: fedlab.NonNull(str("Boolean"))},
 		}},
 		{Kind: fedlab.KObject, Name: "User", Fields: []*fedlab.FieldDef{
-			idf(), {Name: "name", Type: str("String")}, {Name: "reviews", Type: fedlab.ListOf(str("Review"))},
+			idf(), {Name: "name", Type: str("String")}, {Name: "handle", Type: str("String")},
+			{Name: "reviews", Type: fedlab.ListOf(str("Review"))},
+			{Name: "reviewCount", Type: str("Int")}, {Name: "rating", Type: str("String")},
 		}},
 		{Kind: fedlab.KObject, Name: "Review", Fields: []*fedlab.FieldDef{
 			idf(), {Name: "body", Type: str("String")}, {Name: "author", Type: str("User")},
@@ -46,12 +48,12 @@ func MutationFixture() (*fedlab.Config, *fedlab.Universe) {
 		{Name: "accounts", Types: []*fedlab.SubType{
 			{Name: "Query", Fields: sf("me")},
 			{Name: "Mutation", Fields: sf("setName", "bump", "wipe")},
-			{Name: "User", Keys: []string{"id"}, Fields: sf("id", "name")},
+			{Name: "User", Keys: []string{"id"}, Fields: sf("id", "name", "handle")},
 		}},
 		{Name: "reviews", Types: []*fedlab.SubType{
 			{Name: "Query", Fields: sf("latest")},
 			{Name: "Mutation", Fields: sf("addReview", "purge")},
-			{Name: "User", Keys: []string{"id"}, Fields: sf("id", "reviews")},
+			{Name: "User", Keys: []string{"id"}, Fields: sf("id", "reviews", "reviewCount", "rating")},
 			{Name: "Review", Keys: []string{"id"}, Fields: sf("id", "body", "author")},
 		}},
 	}}
@@ -65,9 +67,13 @@ func MutationFixture() (*fedlab.Config, *fedlab.Universe) {
 			{Name: "purge", Val: fsc(fedlab.JB(true))},
 		}},
 		{Type: "User", Key: "u1", Fields: []fedlab.FV{{Name: "id", Val: fsc(fedlab.JS("u1"))}, {Name: "name", Val: fsc(fedlab.JS("zq9.User.u1.name"))},
-			{Name: "reviews", Val: flst(fref("Review", "r1"), fref("Review", "r2"))}}},
+			{Name: "handle", Val: fsc(fedlab.JS("zq9.User.u1.handle"))},
+			{Name: "reviews", Val: flst(fref("Review", "r1"), fref("Review", "r2"))},
+			{Name: "reviewCount", Val: fsc(fedlab.JNumRaw("7"))}, {Name: "rating", Val: fsc(fedlab.JS("zq9.User.u1.rating"))}}},
 		{Type: "User", Key: "u2", Fields: []fedlab.FV{{Name: "id", Val: fsc(fedlab.JS("u2"))}, {Name: "name", Val: fsc(fedlab.JS("zq9.User.u2.name"))},
-			{Name: "reviews", Val: flst()}}},
+			{Name: "handle", Val: fsc(fedlab.JS("zq9.User.u2.handle"))},
+			{Name: "reviews", Val: flst()},
+			{Name: "reviewCount", Val: fsc(fedlab.JNumRaw("0"))}, {Name: "rating", Val: fsc(fedlab.JS("zq9.User.u2.rating"))}}},
 		{Type: "Review", Key: "r1", Fields: []fedlab.FV{{Name: "id", Val: fsc(fedlab.JS("r1"))}, {Name: "body", Val: fsc(fedlab.JS("zq9.Review.r1.body"))}, {Name: "author", Val: fref("User", "u1")}}},
 		{Type: "Review", Key: "r2", Fields: []fedlab.FV{{Name: "id", Val: fsc(fedlab.JS("r2"))}, {Name: "body", Val: fsc(fedlab.JS("zq9.Review.r2.body"))}, {Name: "author", Val: fref("User", "u2")}}},
 	}}
@@ -85,6 +91,16 @@ var MutationOps = []string{
 	`mutation { a: bump b: bump addReview(body: "c") { body } purge }`,
 	`mutation { purge setName(n: "y") { reviews { body } } }`,
 	`query { me { name reviews { body } } latest { body author { name } } }`,
+	// 9.. a mutation root field returning an entity, nested (query-typed) entity fetches from the other
+	// subgraph with two or three protected root fields
+	`mutation { setName(n: "x") { id name reviewCount rating } }`,
+	`mutation { setName(n: "x") { reviewCount rating reviews { body } } bump }`,
+	`mutation { addReview(body: "b") { body author { name handle } } }`,
+	`mutation { bump setName(n: "z") { rating reviewCount } addReview(body: "c") { author { handle name reviewCount } } }`,
+	`query { me { id name reviewCount rating } latest { author { name handle } } }`,
+	// 14.. two mutation root fields of one subgraph, then of two subgraphs (serial execution)
+	`mutation { wipe bump }`,
+	`mutation { purge wipe bump }`,
 }
 
 // InterfaceFixture: an interface whose implementers are entities extended by other subgraphs,
@@ -280,6 +296,10 @@ func Fixtures() []Fixture {
 			{"Mutation.setName", "Mutation.addReview", "User.name", "Review.body"},
 			{"Mutation.bump", "Mutation.setName", "User.reviews", "Review.author", "User.id"},
 			{"Query.me", "Query.latest", "User.name", "Mutation.wipe", "Mutation.addReview"},
+			{"User.reviewCount", "User.rating"},                                                                           // 4: the root fields of the nested entity fetch
+			{"User.reviewCount", "User.rating", "User.reviews", "Mutation.setName"},                                       // 5
+			{"User.name", "User.handle", "Mutation.addReview", "User.reviewCount"},                                        // 6
+			{"Mutation.bump", "Mutation.wipe", "Mutation.purge", "Mutation.setName", "Mutation.addReview", "User.rating"}, // 7
 		}},
 	}
 }
